@@ -5,6 +5,21 @@ import json, os, subprocess
 ROOT = os.path.dirname(os.path.dirname(os.path.abspath(__file__)))
 
 CLAIMED = {
+ "C07": dict(
+   text="The launch handshake as an LTS in Coq: parent (Start / syncWithChild / handleChildFailed) || child (id-map wait, the phases before the sync "
+        "point, the sync read, exec — each may fail) || the socketpair (one FIFO per direction with EOF when the peer's end is closed) || the "
+        "callback || SIGKILL + wait4, for all 8 configurations (user namespace, callback configured, early return).  Theorems for every "
+        "reachable state by closed_sound: C07_callback_before_exec (while the callback runs the child is blocked at the sync point, nothing was "
+        "exec'ed), C07_exec_needs_approval, C07_failed_never_runs (an error return: the target never ran, the child is reaped, the error is the "
+        "clone error, the callback's error, or names the step the child failed at), C07_success_means_execed, C07_no_deadlock; "
+        "C07_early_return_swallows_failure is the known finding for the configurations that return before exec.  Tie on every run: ~150 real "
+        "launches with a fault induced at each reachable step by real inputs x callback {none, ok, failing} x user namespace, plus descriptor "
+        "lists of 3..39 entries with a failing exec; inside the callback the pid's image / state / parent and the target's marker file; after "
+        "the return wait4(-1) = ECHILD and the ChildError location and index; every outcome must be a terminal outcome of the LTS (in Coq).",
+   note="Partial: signal delivery latency is not modelled (the kill is atomic with the wait in the LTS).  The container relay of the pid "
+        "(SCM_CREDENTIALS translation, rule SK3) is exercised by the C10/C11/C16 runs, not modelled here.  Trusted: Coq kernel + vm_compute.",
+   technique="Coq proof by reflection over a finite LTS per configuration + fault injection by real inputs at every launch step",
+   design="§5 C07"),
  "C12": dict(
    text="Theorems in Coq over a model of process trees (unbounded sequences of fork / exit / leave-the-group actions): C12_ptrace_teardown (for EVERY "
         "tree a program can build while the policy refuses setsid/setpgid, killAll(-pgid) + collectZombie leaves no task alive and none "
